@@ -326,7 +326,7 @@ func runC03(cx *Ctx, r *Report) {
 // ------------------------------------------------------------------- C04
 
 func runC04(cx *Ctx, r *Report) {
-	r.Explanation = "F4 double entry between the six cross-chain supply counters (AssetSupply.Incoming/Outgoing/Current[/TimeLimitedCurrent], recognised as field updates old±coin) and the bank effects of the HTLC module, over every call chain of CreateHTLC, ClaimHTLC and the begin blocker. Pairing (co-executed, same coin): Current+ ↔ MintCoins, Current− ↔ BurnCoins, Outgoing+ ↔ signer→escrow, Outgoing− ↔ BurnCoins (claim) or escrow→sender (refund), Incoming+ ↔ no bank effect, Incoming− ↔ MintCoins (claim) or none (refund); every mint/burn/escrow movement of a cross-chain transfer is matched conversely. Guards: increments hold ¬(limit < total+coin) (and the time-based twin under TimeLimited), decrements hold ¬IsNegative(counter − amount), Outgoing+ holds ¬(current < outgoing+coin). Who-may-write: the supply prefix 0x03 is written only next to such a counter update, by the time-window reset of the begin blocker, or by genesis. Decides the bookkeeping structure on all paths; equality with the bank supply over histories and the time-window arithmetic are not decided."
+	r.Explanation = "F4 double entry between the six cross-chain supply counters (AssetSupply.Incoming/Outgoing/Current[/TimeLimitedCurrent], recognised as field updates old±coin) and the bank effects of the HTLC module, over every call chain of CreateHTLC, ClaimHTLC and the begin blocker. Pairing (co-executed, same coin): Current+ ↔ MintCoins, Current− ↔ BurnCoins, Outgoing+ ↔ signer→escrow, Outgoing− ↔ BurnCoins (claim) or escrow→sender (refund), Incoming+ ↔ no bank effect, Incoming− ↔ MintCoins (claim) or none (refund); every mint/burn/escrow movement of a cross-chain transfer is matched conversely. Guards: increments hold ¬(limit < total+coin) (and the time-based twin under TimeLimited), decrements hold ¬IsNegative(counter − amount), Outgoing+ holds ¬(current < outgoing+coin). Who-may-write: the supply prefix 0x03 is written only next to such a counter update, by the time-window reset of the begin blocker, or by genesis. Decides the bookkeeping structure on all paths; (time window) in the begin blocker each asset's TimeElapsed advances by exactly block time − stored previous block time, with no value carried between assets, under TimeLimited ∧ old+Δ < TimePeriod, else the window and the time-limited supply are reset together, and the reference time moves to this block. Equality with the bank supply over histories is not decided."
 	r.Assumptions = []string{"bank keeper semantics", "counters and escrow start consistent (genesis validation)"}
 	per := htlcEvents(cx, r)
 	type dl struct {
@@ -475,6 +475,81 @@ func runC04(cx *Ctx, r *Report) {
 			r.check(ok, "supply-writers", kc.next(name+"|0x03"), x.ev.Pos(cx), "supply record written "+why, "supply record written on chain "+x.ev.Fr.String()+" without a recognised counter update")
 		}
 	}
+	// ------------------------------------------------ time window of the time-based limit
+	{
+		evs := per["BeginBlock"]
+		var adv, other []hev
+		for _, x := range evs {
+			switch {
+			case x.ev.Kind == "delta:AssetSupply.TimeElapsed:+":
+				adv = append(adv, x)
+			case strings.HasPrefix(x.ev.Kind, "delta:AssetSupply.TimeElapsed") || x.ev.Kind == "assign:AssetSupply.TimeElapsed":
+				other = append(other, x)
+			}
+		}
+		prevGetters := cx.gettersOf("htlc", []string{"htlc:PreviousBlockTimeKey=0x04"})
+		ok := len(adv) == 1
+		pos, why := "", fmt.Sprintf("%d additive updates of AssetSupply.TimeElapsed in the begin blocker (expected 1)", len(adv))
+		if ok {
+			x := adv[0]
+			pos = x.ev.Pos(cx)
+			v := x.ev.Args[0]
+			vs := v.LooseString()
+			fromPrev := false
+			for _, g := range prevGetters {
+				if strings.Contains(vs, callNameOfFn(g)+"(") {
+					fromPrev = true
+				}
+			}
+			_, gPeriod := x.fact(true, ".TimeElapsed", " < ", ".SupplyLimit.TimePeriod")
+			_, gLimited := x.fact(true, ".SupplyLimit.TimeLimited")
+			switch {
+			case strings.Contains(vs, "⟲"):
+				ok, why = false, "the amount added to an asset's TimeElapsed depends on a value carried over from the previous loop iteration (another asset): "+trunc(vs, 160)
+			case !(v.Op == "call" && v.Name == "time.Time.Sub" && len(v.Args) == 2 && v.Args[0].LooseString() == "sdk.Context.BlockTime()" && fromPrev):
+				ok, why = false, "the amount added to an asset's TimeElapsed is not (block time − stored previous block time): "+trunc(vs, 160)
+			case !gPeriod || !gLimited:
+				ok, why = false, "the window is advanced without the guard TimeLimited ∧ old+Δ < TimePeriod"
+			}
+		}
+		if !ok {
+			for _, x := range other {
+				if vs := x.ev.Args[0].LooseString(); strings.Contains(vs, "⟲") {
+					why, pos = "an asset's TimeElapsed is set from a value carried over from the previous loop iteration (another asset's elapsed time leaks into this asset's window): "+trunc(vs, 200), x.ev.Pos(cx)
+				}
+			}
+		}
+		for _, x := range other {
+			zero := x.ev.Kind == "assign:AssetSupply.TimeElapsed" && x.ev.Args[0].LooseString() == "0"
+			reset := false
+			for _, y := range evs {
+				if y.ev.Kind == "assign:AssetSupply.TimeLimitedCurrentSupply" && y.ev.Site.Block() == x.ev.Site.Block() && strings.HasSuffix(y.ev.Args[0].LooseString(), ", math.ZeroInt())") {
+					reset = true
+				}
+			}
+			if ok && !(zero && reset) {
+				ok, why, pos = false, "TimeElapsed is overwritten with "+trunc(x.ev.Args[0].LooseString(), 120)+" (only the window reset {TimeElapsed := 0, TimeLimitedCurrentSupply := 0} may overwrite it)", x.ev.Pos(cx)
+			}
+		}
+		// the reference point moves to this block's time on every path that advanced a window
+		setPrev := pick(evs, "store.set", func(y hev) bool {
+			return hasPrefix(y.ev, "htlc:PreviousBlockTimeKey=0x04") && strings.Contains(y.ev.Args[1].LooseString(), "sdk.Context.BlockTime()")
+		})
+		if ok && len(adv) == 1 {
+			moved := false
+			for _, y := range setPrev {
+				if followedBy(adv[0].ev, y.ev) {
+					moved = true
+				}
+			}
+			if !moved {
+				ok, why = false, "after advancing the windows the stored previous block time is not set to this block's time on every path"
+			}
+		}
+		r.check(ok, "time-window", "BeginBlock", pos, "each asset's window advances by exactly (block time − stored previous block time), independently of the other assets, under TimeLimited ∧ old+Δ < TimePeriod; otherwise it is reset together with the time-limited supply; the reference time then moves to this block", "time window of the time-based limit: "+why)
+	}
+	cx.lostUpdateRule(r, []string{"htlc"}, 8)
+	r.requireCount("time-window", 1)
 	r.requireCount("double-entry", 7)
 	r.requireCount("limit-guard", 9)
 	r.requireCount("supply-writers", 6)
